@@ -33,7 +33,7 @@ CONFIG = dict(
                "of the loop model); same_name_shares_scheduler is the witness that the hypothesis cannot be dropped (reproduced on the real code: two services "
                "with the same run-service name run each other's posted closures, 2 goroutines, 2 at once). Dynamically, instrumented real services record "
                "goroutine and in-flight count at 23 entry-point kinds under concurrent producers; the monitor predicate Loop.Mon.ok is evaluated on those records.",
-    level_note="Partial: the Go scheduler and memory model are not modelled; reflect.Select, proto.actor (mailbox run -> Receive) and apimapper's reflective "
+    level_note="Known false-alarm class of the static half: a behaviour-preserving refactoring that moves a stored closure into a NEW unexported helper which RETURNS it creates a closure kind (return:pkg.helper) the reviewed tables do not list and is reported as no-failing-input-found (seeded/C15-indh-h10 run against C04); unexported field and interface-type NAMES no longer occur in graph keys (fields are named by type, unexported interfaces by method set). Partial: the Go scheduler and memory model are not modelled; reflect.Select, proto.actor (mailbox run -> Receive) and apimapper's reflective "
                "handler call are trusted links of the graph; the reviewed tables of lean/Cell2v/Spec/C04.lean (which keys are service code, which exported "
                "functions are loop-side API to be called only from the service's goroutine) are a hand-written description checked for completeness, not for truth; "
                "code outside the nine analysed packages (node/client/impls, waterfall.Simple / ExecAndWait, proto.actor's supervision / restart path) is covered only by the dynamic half; "
